@@ -19,8 +19,8 @@ use std::time::Duration;
 const PROPERTY: &str = "C25";
 const PROFILE: &str = "hnsw@C25";
 // quick: about a minute of batch time on 16 cores; thorough: about ten minutes
-const QUICK_RUNS: u64 = 6000;
-const THOROUGH_RUNS: u64 = 40000;
+const QUICK_RUNS: u64 = 2000;
+const THOROUGH_RUNS: u64 = 20000;
 
 fn arg_value(args: &[String], flag: &str) -> Option<String> {
     args.iter().position(|a| a == flag).and_then(|i| args.get(i + 1).cloned())
@@ -252,6 +252,41 @@ fn cmd_min(args: &[String]) -> i32 {
     0
 }
 
+
+/// `hnswsim mkreplay <case-file> <sig-substring> <out-dir> <name>` — run a hand-written case (or
+/// the case of a replay file) and write the replay file for its first violation whose signature
+/// string contains the substring.
+fn cmd_mkreplay(args: &[String]) -> i32 {
+    if args.len() < 4 {
+        eprintln!("usage: hnswsim mkreplay <case-file> <sig-substring> <out-dir> <name>");
+        return 2;
+    }
+    let doc: serde_json::Value = match std::fs::read(&args[0]).ok().and_then(|b| serde_json::from_slice(&b).ok()) {
+        Some(d) => d,
+        None => {
+            eprintln!("cannot read {}", args[0]);
+            return 2;
+        }
+    };
+    let case = if doc.get("case").is_some() { doc["case"].clone() } else { doc };
+    let base = pool::default_scratch_base();
+    let vs = exec_in_child(&base, &case);
+    pool::cleanup(&base);
+    match vs.iter().find(|v| v.sig_string().contains(&args[1])) {
+        Some(v) => {
+            let path = driver::write_replay(std::path::Path::new(&args[2]), "hnswsim", v);
+            let np = std::path::Path::new(&args[2]).join(&args[3]);
+            let _ = std::fs::rename(&path, &np);
+            println!("replay file: {}\nsig: {}\ndetail: {}", np.display(), v.sig_string(), v.detail);
+            0
+        }
+        None => {
+            println!("no violation matching {:?}; case has: {:?}", args[1], vs.iter().map(|v| v.sig_string()).collect::<Vec<_>>());
+            1
+        }
+    }
+}
+
 fn batch(profile: &str, n: u64, seed: u64, tier: Tier, label: &str) -> (Vec<(u64, JobStatus)>, f64) {
     let base = pool::default_scratch_base();
     let cfg = PoolCfg { workers: workers(), timeout: Duration::from_secs(120), scratch: base.join(label), deadline: None };
@@ -445,6 +480,7 @@ fn main() {
         Some("gen") => cmd_gen(&args[2..]),
         Some("case") => cmd_case(&args[2..]),
         Some("min") => cmd_min(&args[2..]),
+        Some("mkreplay") => cmd_mkreplay(&args[2..]),
         Some("kfcheck") => cmd_kfcheck(&args[2..]),
         Some("selfcheck") => cmd_selfcheck(&args[2..]),
         Some("survey") => cmd_survey(&args[2..]),
